@@ -195,7 +195,7 @@ def do_mutate(name, pos, b, lo=0, hi=None):
 
 
 MSH = 3           # byte positions per shard (one position costs ~8 execution paths of two full-stack requests each)
-QUICK_MUT = {('read_tag', 0), ('read_tag', 54), ('read_tag', 57), ('write_tag_wrapper', 24), ('register', 0), ('get_attribute_single', 54)}
+QUICK_MUT = {('read_tag', 0), ('read_tag', 54), ('read_tag', 57), ('write_tag_wrapper', 24), ('register', 0)}
 for name in FRAMES:
     npos = mutable_positions(name)
     for lo in range(0, npos, MSH):
